@@ -169,7 +169,40 @@ def bad_calls(fam, kind, rng, present, universe, values):
 EXTRA_OPS = {
     'byValue': lambda c, v: list(c.byValue(v)),
     'keys_index': lambda c, i: c.keys()[i],
+    # range searches and lazy sequences (min, max, excludemin, excludemax)
+    'rkeys': lambda c, *a: list(c.keys(*a)),
+    'rvalues': lambda c, *a: list(c.values(*a)),
+    'ritems': lambda c, *a: list(c.items(*a)),
+    'riter': lambda c, *a: list(c.iteritems(*a)),
+    'rlen': lambda c, *a: len(c.keys(*a)),
+    'rindex': lambda c, i, *a: c.keys(*a)[i],
+    'rslice': lambda c, i, j, *a: list(c.keys(*a)[i:j]),
 }
+
+
+def range_call(rng, w, present, universe, is_mapping, is_tree):
+    """A range search whose bounds are taken from the current shape:
+    separators, first/last keys of leaves, gaps, None."""
+    cands = [None, None]
+    cands += present[:1] + present[-1:]
+    if w is not None:
+        cands += list(w.separators) * 2
+        for lk in w.leaf_keys:
+            cands += [lk[0], lk[-1]]
+    cands += [rng.choice(universe) for _ in range(3)]
+    mn, mx = rng.choice(cands), rng.choice(cands)
+    args = (mn, mx, rng.random() < .5, rng.random() < .5)
+    ops = ['rkeys']
+    if is_mapping:
+        ops += ['rvalues', 'ritems', 'riter']
+    if is_tree:
+        ops += ['rlen', 'rindex', 'rslice']
+    op = rng.choice(ops)
+    if op == 'rindex':
+        return op, (rng.randint(-3, 6),) + args
+    if op == 'rslice':
+        return op, (rng.randint(-3, 4), rng.randint(-3, 8)) + args
+    return op, args
 
 
 def _tb(e):
@@ -296,7 +329,11 @@ def run_history(fam, kind, impl, mode, rng, rec, h):
                          args=brief(args))
                     return
             continue
-        op, args = g.next_op(w, present)
+        if rng.random() < 0.15:
+            op, args = range_call(rng, w, present, g.universe, is_mapping,
+                                  is_tree)
+        else:
+            op, args = g.next_op(w, present)
         log.append((op, args))
         rec.journal(repr((desc, log[-30:])))
         rargs = tuple(gen.materialize(a, fam, impl, c, False) for a in args)
@@ -312,10 +349,10 @@ def run_history(fam, kind, impl, mode, rng, rec, h):
         if mode == 'in-call':
             inject.arm(callback=in_call_sweep)
         try:
-            ro = call(c, op, rargs)
+            ro = do_call(c, op, rargs, None)
         finally:
             inject.disarm()
-        to = call(t, op, targs)
+        to = do_call(t, op, targs, None)
         rec.evaluations += 1
         if state['ghosted']:
             rec.ev(impl + ':sweep-ghostified:in-call')
